@@ -1,5 +1,11 @@
 package c02
 
-import "verifharness/suites/mbx"
+import (
+	"verifharness/suites/asys"
+	"verifharness/suites/mbx"
+)
 
-func init() { mbx.Register(); mbx.RegisterFacts() }
+// mailbox / mailbox-facts: Layer 1 (lost wake-ups, duplication, FIFO). actorsys: Layer 2 (dead-letter
+// routing of terminating / terminated / unknown receivers, drain of a suspended mailbox on termination)
+// compared step by step with the model. deadletters: end to end on a real system (deadletters.go).
+func init() { mbx.Register(); mbx.RegisterFacts(); asys.Register() }
